@@ -185,4 +185,13 @@ PROPS["C09"] = {
     "assumptions": COMMON_ASSUMPTIONS + ["RFC 791/2460/793/3376/826, IEEE 802.1Q layouts transcribed from memory in the independent encoder"],
 }
 
+PROPS["C07"] = {
+    "families": ["OF"], "ops": "parse,sw,dec", "gen_deps": [],
+    "rule": DEC_RULE + " For C07: every frame goes through openflow13.Parse (about 12 000 frames at the quick tier: wire images of every message kind incl. packet-in with every payload decoder, vendor and bundle messages, multipart replies; every truncation, corruption of type/length/count bytes, declared lengths 0 and 0xffff, spare capacity). A Parse call that does not return within 1.5 s counts as non-termination, a recovered panic is an error.",
+    "trivial_outputs": ["err", "panic", "spin", "-"],
+    "level_text": "Kernel-checked: C07_parse_no_panic (for every depth and slice, unconditional) and C07_parse_total : for EVERY well-formed slice (len <= cap, no bound on either) Parse returns a message or an error — proved decoder by decoder: every loop of every decoder reachable from Parse (hello elements, match fields, action lists at every conntrack nesting depth, learn specs, instructions, flow-stats records, multipart records, TLV maps, bundle properties and the nested Parse, packet-in -> Ethernet via the C08 theorems) advances its cursor on every successful iteration within fuel linear in the input. The failed attempts to prove it without bounds produced three concrete non-terminating inputs (hello > 65535 bytes; a 65535-byte flow-stats reply; a 65545-byte bundle-add), each replayed on the library, repaired (b558ac9, 48a6ffe, f8f0b2c) and kept as corpus witnesses. Oracle on the implementation: no generated frame makes Parse panic or exceed its time budget.",
+    "level_note": OF_NOTE + " 'Time and memory proportional to the input' is proved as: no panic, no non-termination, loop fuel linear in the slice capacity; the model has no finer cost notion.",
+    "assumptions": COMMON_ASSUMPTIONS + ["slices are well formed (len <= cap)"],
+}
+
 NOT_YET = {}
